@@ -208,7 +208,7 @@ theorem scanSums_list (a : Nat) (as : List Nat) (r : List Char) (acc : List Nat)
       cases h : dec a with
       | nil => exact absurd h (dec_ne_nil _)
       | cons _ _ => rfl
-    simp [scanSums, Char.isDigit, hne, undec_dec]
+    simp [scanSums, Char.isDigit, hne]
   | cons b bs ih =>
     simp only [List.flatMap_cons, List.append_assoc, List.cons_append]
     rw [scanSums_digits _ _ _ _ (dec_all_digits a)]
@@ -218,7 +218,7 @@ theorem scanSums_list (a : Nat) (as : List Nat) (r : List Char) (acc : List Nat)
       | cons _ _ => rfl
     have := ih b (acc ++ [a])
     simp only [List.append_assoc] at this
-    simp [scanSums, Char.isDigit, hne, undec_dec, this]
+    simp [scanSums, Char.isDigit, hne, this]
 
 theorem readSums_sumsStr (s : Option (List Nat)) (r : List Char) :
     readSums (sumsStr s ++ r) = some (s, r) := by
@@ -231,7 +231,7 @@ theorem readSums_sumsStr (s : Option (List Nat)) (r : List Char) :
       have := scanSums_list a as r []
       simp only [List.nil_append] at this
       simp only [sumsStr, List.cons_append, List.append_assoc, readSums, lit]
-      simp only [List.append_assoc, List.singleton_append] at this
+      simp only [List.append_assoc] at this
       simp [this]
 
 theorem takeWhile_name (name r : List Char) (hn : ∀ c ∈ name, (c != '"') = true) :
@@ -240,14 +240,65 @@ theorem takeWhile_name (name r : List Char) (hn : ∀ c ∈ name, (c != '"') = t
   simp
 
 theorem jsonPlain_ne_quote {c : Char} (h : jsonPlain c = true) : (c != '"') = true := by
-  simp only [jsonPlain, Bool.and_eq_true] at h
-  exact h.1.1.1.1.2
+  simp only [jsonPlain, Bool.and_eq_true, decide_eq_true_eq] at h
+  have h34 : c.toNat ≠ 34 := h.1.1.1.1.2
+  simp only [bne_iff_ne, ne_eq]
+  intro hc; subst hc; exact h34 (by decide)
+
+theorem isHex_jsonPlain {c : Char} (h : isHex c = true) : jsonPlain c = true := by
+  simp only [isHex, Bool.or_eq_true, Bool.and_eq_true, decide_eq_true_eq] at h
+  simp only [jsonPlain, Bool.and_eq_true, decide_eq_true_eq]
+  omega
+
+/-! ### insertion sort of the table -/
+
+theorem insertRange_perm (r : Range) (l : List Range) : (insertRange r l).Perm (r :: l) := by
+  induction l with
+  | nil => exact List.Perm.refl _
+  | cons x xs ih =>
+    simp only [insertRange]
+    split
+    · exact List.Perm.refl _
+    · exact (List.Perm.cons x ih).trans (List.Perm.swap r x xs)
+
+theorem isort_perm (l : List Range) : (isort l).Perm l := by
+  induction l with
+  | nil => exact List.Perm.refl _
+  | cons r rs ih => exact (insertRange_perm r (isort rs)).trans (List.Perm.cons r ih)
+
+theorem insertRange_sorted (r : Range) (l : List Range)
+    (hs : l.Pairwise (fun a b => a.fileSize ≤ b.fileSize)) :
+    (insertRange r l).Pairwise (fun a b => a.fileSize ≤ b.fileSize) := by
+  induction l with
+  | nil => simp [insertRange]
+  | cons x xs ih =>
+    have hs' := List.pairwise_cons.mp hs
+    simp only [insertRange]
+    split
+    · rename_i hle
+      refine List.pairwise_cons.mpr ⟨?_, hs⟩
+      intro y hy
+      rcases List.mem_cons.mp hy with h | h
+      · subst h; exact hle
+      · have := hs'.1 y h; omega
+    · rename_i hnle
+      refine List.pairwise_cons.mpr ⟨?_, ih hs'.2⟩
+      intro y hy
+      have hy' := (insertRange_perm r xs).mem_iff.mp hy
+      rcases List.mem_cons.mp hy' with h | h
+      · subst h; omega
+      · exact hs'.1 y h
+
+theorem isort_sorted (l : List Range) : (isort l).Pairwise (fun a b => a.fileSize ≤ b.fileSize) := by
+  induction l with
+  | nil => simp [isort]
+  | cons r rs ih => exact insertRange_sorted r _ ih
 
 theorem readInfo_serializeInfo (i : Info) (hn : i.name.all jsonPlain = true) :
     readInfo (serializeInfo i) = some i := by
   have hq : ∀ c ∈ i.name, (c != '"') = true := fun c hc => jsonPlain_ne_quote (List.all_eq_true.mp hn c hc)
   unfold serializeInfo readInfo
-  simp only [List.append_assoc, lit_append, Option.bind_eq_bind, Option.bind_some, Option.pure_def]
+  simp only [List.append_assoc, lit_append, Option.bind_eq_bind, Option.bind_some]
   rw [readInt_intStr _ _ (by intro c hc; simp [kPieceSums] at hc; subst hc; decide)]
   simp only [Option.bind_some, lit_append]
   rw [readSums_sumsStr]
@@ -258,7 +309,8 @@ theorem readInfo_serializeInfo (i : Info) (hn : i.name.all jsonPlain = true) :
   rw [h1, h2, ← hk, lit_append]
   simp only [Option.bind_some]
   rw [readInt_intStr _ _ (by intro c hc; simp [kEnd] at hc; subst hc; decide)]
-  simp [lit_append]
+  have hself : lit kEnd kEnd = some [] := by simpa using lit_append kEnd []
+  simp [hself]
 
 /-! ### piece-length table -/
 
@@ -294,6 +346,10 @@ theorem getLoop_spec (size : Int) : ∀ (rs : List Range) (pl : Int),
       rw [ih _ hs'.2, List.filter_cons_of_pos (by simpa using hle)]
       cases hf : rs.filter (fun r => decide (r.fileSize ≤ size)) with
       | nil => simp
-      | cons y ys => simp [List.getLast?_cons_cons]
+      | cons y ys =>
+        simp only [List.getLast?_cons_cons]
+        cases hg : (y :: ys).getLast? with
+        | none => simp at hg
+        | some z => rfl
 
 end KrakenModel.Proof.C02
